@@ -112,7 +112,9 @@ namespace ST
         size_t size() const noexcept { return m_size; }
 
     private:
-        char m_buffer[64];
+        // Room for the largest value in fixed notation: sign, max_exponent10 + 1
+        // digits, the decimal point, six decimals and the terminator
+        char m_buffer[std::numeric_limits<double>::max_exponent10 + 16];
         size_t m_size;
     };
 }
